@@ -140,6 +140,34 @@ let history id =
        Printf.printf "%s RES %s FILES %s FINAL %s MODE %s BYTES %s\n" id (String.concat " " (List.rev !res))
          (String.concat " " (List.rev !files)) (canon_doc !st.st_file) mode (String.concat " " (List.rev !sums)))
 
+(* the same from the BYTES of the file: Model/JsonRead.v reads and classifies the document *)
+let history_bytes id =
+  let init = (match next () with "ABSENT" -> None | "EMPTY" -> Some [] | h -> Some (str_of_hex h)) in
+  let n = next_int () in
+  let ops = times n parse_op in
+  let rec trailer l (m, dp) = match l with
+    | "MODE" :: x :: r -> trailer r (x, dp)
+    | "DP" :: x :: r -> trailer r (m, x = "1")
+    | _ -> (m, dp) in
+  let (initmode, dp) = trailer !toks ("-", false) in
+  disable_put := dp;
+  match open_bytes init with
+  | None -> Printf.printf "%s LOADERR\n" id
+  | Some ((st0, tops), ents0) ->
+    let st = ref st0 in
+    let res = ref [] and saved = ref false and ents = ref ents0 and sums = ref [] in
+    List.iter (fun oh ->
+        let saves_now = x_saves !st (fst oh) && not (dp && (match fst oh with Put (_, _) -> true | _ -> false)) in
+        if saves_now then saved := true;
+        ents := retire !ents (fst oh) saves_now;
+        let (st', r) = step_hinted !st oh in
+        st := st'; res := r :: !res;
+        sums := (match st'.st_file with
+            | None -> "absent"
+            | Some d -> if !saved then md5 (string_of_str (render_file tops !ents d)) else "orig") :: !sums) ops;
+    let mode = if !saved then Printf.sprintf "%o" (int_of_n mode_file) else initmode in
+    Printf.printf "%s RES %s MODE %s BYTES %s\n" id (String.concat " " (List.rev !res)) mode (String.concat " " (List.rev !sums))
+
 (* crash cut: paths are symbolic: D1 D2 .. (the chain of config-directory levels), P (config), T (temp).
    The first token lists the mode of every level, comma separated, "-" = missing. *)
 let p_cfg = str_of_hex "50" and p_tmp = str_of_hex "54"
@@ -253,6 +281,7 @@ let () =
         (try
            match kind with
            | "H" -> history id
+           | "HB" -> history_bytes id
            | "K" -> crash id
            | "KS" -> script id
            | "KE" -> io_error id
